@@ -108,12 +108,11 @@ theorem all_done_empty (acts : List Act) (h : Along Cfg.cur EndHyp State.init ac
 /-! ### exactness at quiescence -/
 
 /-- the hypotheses behind "exactly the newest live incarnation" -/
-def ExactHyp (σ : State) (a : Act) : Prop := StampsOK σ a ∧ UnregOK σ a ∧ RecvOK σ a ∧ OpenOK σ a ∧ OrderOK σ a
+def ExactHyp (σ : State) (a : Act) : Prop := StampsOK σ a ∧ RecvOK σ a ∧ OpenOK σ a ∧ OrderOK σ a
 
 structure InvAll (σ : State) : Prop where
   e : InvEnd σ
   stamp : InvStamp σ
-  unreg : InvUnreg σ
   c : InvC σ
   j : InvJ σ
   a : InvA σ
@@ -127,7 +126,6 @@ theorem invAll_init : InvAll State.init :=
   ⟨invEnd_init,
    fun i _ hi _ _ _ _ _ => by simp [State.init] at hi,
    fun _ h => by simp [inc_init] at h,
-   fun _ h => by simp [inc_init] at h,
    fun _ _ _ _ h _ _ => by simp [inc_init] at h,
    fun _ h => by simp [inc_init] at h,
    fun _ h _ => by simp [inc_init] at h,
@@ -136,19 +134,19 @@ theorem invAll_init : InvAll State.init :=
    fun _ h => by simp [inc_init] at h,
    fun _ j _ hj _ _ => by simp [State.init] at hj⟩
 
-theorem invAll_step {c σ a σ'} (h : step c σ a = some σ') (hc : c.cleanupUnconditional = false) (hy : ExactHyp σ a)
-    (I : InvAll σ) : InvAll σ' :=
+theorem invAll_step {c σ a σ'} (h : step c σ a = some σ') (hc : c.cleanupUnconditional = false) (hc2 : c.secondDelete = false)
+    (hy : ExactHyp σ a) (I : InvAll σ) : InvAll σ' :=
   have B := I.e.u.bound
-  ⟨invEnd_step h hc ⟨hy.2.2.1, hy.2.2.2.1⟩ I.e,
-   invStamp_step h hy.1 B I.stamp, invUnreg_step h hy.2.1 B I.unreg,
+  ⟨invEnd_step h hc ⟨hy.2.1, hy.2.2.1⟩ I.e,
+   invStamp_step h hy.1 B I.stamp,
    invC_step h hc B I.e.serial I.j I.c, invJ_step h B I.e.serial I.c I.j, invA_step h hc B I.e.serial I.j I.a,
-   invAckOwn_step h B I.e.serial I.j I.ackOwn, invDown_step h hy.2.2.2.1 I.down,
-   invS2_step h hy.2.2.2.2 B I.s2, invL2_step h hy.2.2.2.2 B I.stamp I.unreg I.l2,
-   invSup_step h hy.2.2.1 hy.2.2.2.2 B I.c I.sup⟩
+   invAckOwn_step h B I.e.serial I.j I.ackOwn, invDown_step h hy.2.2.1 I.down,
+   invS2_step h hy.2.2.2 B I.s2, invL2_step h hc2 hy.2.2.2 B I.stamp I.l2,
+   invSup_step h hy.2.1 hy.2.2.2 B I.c I.sup⟩
 
-theorem invAll_run {c : Cfg} (hc : c.cleanupUnconditional = false) (acts : List Act)
+theorem invAll_run {c : Cfg} (hc : c.cleanupUnconditional = false) (hc2 : c.secondDelete = false) (acts : List Act)
     (H : Along c ExactHyp State.init acts) : InvAll (run c State.init acts) :=
-  run_induct (H := ExactHyp) (fun _ _ _ h hy I => invAll_step h hc hy I) acts State.init invAll_init H
+  run_induct (H := ExactHyp) (fun _ _ _ h hy I => invAll_step h hc hc2 hy I) acts State.init invAll_init H
 
 theorem newest_some {p : Tok → Bool} : ∀ {n i}, newest p n = some i → i < n ∧ p i = true
   | 0, i, h => by simp [newest] at h
@@ -281,6 +279,6 @@ theorem exact_of_invAll {σ : State} (I : InvAll σ) (hq : Quiescent σ) : Exact
 
 theorem exact_at_quiescence (acts : List Act) (h : Along Cfg.cur ExactHyp State.init acts) :
     Quiescent (run Cfg.cur State.init acts) → Exact (run Cfg.cur State.init acts) :=
-  exact_of_invAll (invAll_run rfl acts h)
+  exact_of_invAll (invAll_run rfl rfl acts h)
 
 end S2S.Registry
